@@ -2000,6 +2000,16 @@ CATALOGUE['C10'] = [
 
 # --------------------------------------------------------------------- C11
 CATALOGUE['C11'] = [
+    V('orphan test of the start side off by one', 'DT_InSV.py',
+      "        if start - 1 < orphan:", "        if start < orphan:",
+      'C11.R6'),
+    V('look-ahead probe one element short', 'DT_InSV.py',
+      """        end = start + size - 1
+        try:
+            sequence[end + orphan - 1]""",
+      """        end = start + size - 1
+        try:
+            sequence[end + orphan - 2]""", 'C11.R6'),
     V('explicit end below start not raised to start', 'DT_InSV.py',
       """            if end < start:
                 end = start
